@@ -75,12 +75,13 @@ def t1End (st : T1State) (t : Ctx) : Option (List SObj × T1State) :=
   | [] => none
   | (ct, cs) :: rest => some (st.curstack, { st with context := rest, curtype := ct, curstack := cs })
 
-/-- `Type1FontHeaderParser.do_keyword`: only `put` does something:
-`((_, key), (_, value)) = self.pop(2)`, a result when `key` is an `int` (`bool` included) and `value` a literal. -/
+/-- `Type1FontHeaderParser.do_keyword`: only `put` does something: `operands = self.pop(2)` (which removes
+whatever is there); with fewer than two operands nothing else happens; otherwise a result when `key` is an
+`int` (`bool` included) and `value` a literal. -/
 def t1Keyword (st : T1State) (name : Bytes) : T1State :=
   if name == kwPut then
     let n := st.curstack.length
-    if n < 2 then { st with curstack := [], error := some "ValueError" } else
+    if n < 2 then { st with curstack := [] } else
     let st' := { st with curstack := st.curstack.take (n - 2) }
     match st.curstack.drop (n - 2) with
     | [.int k, .lit nm] => { st' with results := st'.results ++ [(k, nm)] }
@@ -129,13 +130,17 @@ def t1Puts (data : Bytes) : Except String (List (Int × Option Name)) :=
 /-- The FontFile stream of a descriptor and its `Length1`. -/
 structure RawFontFile where
   data : Bytes
-  length1 : Int
+  length1 : Option Int
 deriving Repr
 
-/-- `self.fontfile.get_data()[:length1]` (Python slice: a negative bound counts from the end). -/
+/-- `data = get_data()`, and `data[:Length1]` when the stream has a Length1 entry (Python slice: a negative
+bound counts from the end). -/
 def headerBytes (rf : RawFontFile) : Bytes :=
-  if 0 ≤ rf.length1 then rf.data.take rf.length1.toNat
-  else rf.data.take (rf.data.length - rf.length1.natAbs)
+  match rf.length1 with
+  | none => rf.data
+  | some l =>
+    if 0 ≤ l then rf.data.take l.toNat
+    else rf.data.take (rf.data.length - l.natAbs)
 
 abbrev RawFontDict := FontDictOf RawFontFile
 
